@@ -390,6 +390,13 @@ theorem annotation_records_roundtrip (l : List Nat) (d : AnnDir) (rest : Bytes) 
     decOffList (DexX.encOffList l ++ rest) = some (l, rest) ∧ decAnnDir (DexX.encAnnDir d ++ rest) = some (d, rest) :=
   ⟨decOffList_enc l rest hl, decAnnDir_enc d rest hd⟩
 
+/-- the well-formedness hypotheses of the extension cannot be dropped either: a file that encodes
+    tables whose class def names an annotations directory, but has no directory section, makes the
+    extended loader raise KeyError (ClassDefItem.reload → get_annotations_directory_item; the real
+    loader does the same: stream `dexx-missing-section`) -/
+theorem wfx_needed : ∃ file L TX, EncodesX file L TX ∧ parseDexX file = .error "KeyError" :=
+  ⟨_, ExampleX.LnoDir, ExampleX.TXnoDir, ExampleX.encodesNoDir, ExampleX.failsNoDir⟩
+
 /-! ### debug_info_item (parsed on demand: EncodedMethod.get_debug → ClassManager.get_debug_off) -/
 
 /-- a debug_info_item of the format document — uleb128 line_start, uleb128 parameters_size, uleb128p1
